@@ -14,4 +14,5 @@ mkdir -p $H
 rsync -a --delete --exclude target /verif/harness/ $H/
 sed -i "s#/repo#$WT#g" $H/Cargo.toml
 cd /verif
-VERIF_HARNESS=$H "$@"
+mkdir -p /tmp/wp_out/evidence /tmp/wp_out/replays
+VERIF_EVIDENCE_DIR=/tmp/wp_out/evidence VERIF_REPLAY_DIR=/tmp/wp_out/replays VERIF_HARNESS=$H "$@"
